@@ -402,6 +402,15 @@ theorem detached_list (cfg : Cfg K) (defs : List (String × Xml)) (fuel : Nat)
 termination_by (fuel, sizeOf l)
 end
 
+/-- **Nearest viewport.** A shape is rendered against the width and height of the scope it is
+    entered in — which, by scope restoration, is the one established by its nearest enclosing svg
+    (its viewBox size when it has one), not by whatever svg happened to be parsed last. -/
+theorem C03_shape_uses_scope_viewport (cfg : Cfg K) (f : Frame K) (vals : Vals K) (tag : String) :
+    ∀ r ∈ (dispatch cfg f vals tag).2.1, r.w = f.w ∧ r.h = f.h := by
+  unfold dispatch
+  repeat' split
+  all_goals simp
+
 /-- **svg geometry is not inherited.** The scope an `svg` element establishes has no
     `x`, `y`, `width` or `height`: a descendant that omits one of them gets its own default, not
     the svg's value (the defect repaired by 19b07e0). -/
@@ -485,6 +494,59 @@ theorem C03_ctm_is_product (cfg : Cfg K) (anc own : List (TfPiece K)) (A : Mat K
   · rw [tfMatrix_append, hA]
     exact fold_denoting cfg own Ds h A
   · exact (C04_point_assoc _ _ p)
+
+/-- the converted functions of a token list: a function the parser skips (no numeric argument;
+    `matrix` with fewer than six) contributes nothing -/
+def tokVals (v : NumLit → K) : List (TName × List TParam) → Py (List (TName × List K))
+  | [] => .ok []
+  | (n, ps) :: rest =>
+    if ps.length = 0 ∨ (n = .matrix ∧ ps.length < 6) then tokVals v rest
+    else do
+      let vals ← convertParams v n ps
+      let r ← tokVals v rest
+      pure ((n, vals) :: r)
+
+theorem parseTokens_tokVals (v : NumLit → K) (m : Mat K) (toks : List (TName × List TParam))
+    (vals : List (TName × List K)) (h : tokVals v toks = .ok vals) :
+    parseTokens v m toks = parseVals m vals := by
+  induction toks generalizing m vals with
+  | nil => cases h; rfl
+  | cons f rest ih =>
+    obtain ⟨n, ps⟩ := f
+    unfold tokVals at h
+    unfold parseTokens
+    simp only [List.foldlM_cons, applyFunc]
+    split at h
+    · rename_i hskip
+      simp only [hskip, if_true]
+      exact ih m vals h
+    · rename_i hskip
+      simp only [hskip, if_false]
+      cases hc : convertParams v n ps with
+      | error e => rw [hc] at h; cases h
+      | ok cv =>
+        rw [hc] at h
+        cases hr : tokVals v rest with
+        | error e => rw [hr] at h; cases h
+        | ok rv =>
+          rw [hr] at h
+          simp only [bind, Except.bind, pure, Except.pure] at h
+          cases h
+          simp only [bind, Except.bind, parseVals, List.foldlM_cons]
+          cases ha : applyVals m n cv with
+          | error e => rfl
+          | ok m' => exact ih m' rv hr
+
+/-- **Attribute text denotes its matrix.** If the functions of an element's `transform` text
+    convert to values whose list denotes `D` (C04: the SVG/CSS product, right-most function
+    first), the text piece stands for `D`: parsed onto any running matrix it applies `D` first. -/
+theorem text_denotes (cfg : Cfg K) (s : String) (vals : List (TName × List K)) (D : Mat K)
+    (hv : tokVals cfg.num (lexTransform s.toList) = .ok vals) (hD : denote vals = some D) :
+    PieceDenotes cfg (.text s) D := by
+  intro m
+  show parseTokens cfg.num m (lexTransform s.toList) = .ok (mul D m)
+  rw [parseTokens_tokVals cfg.num m _ vals hv]
+  exact C04_parse_denotes m vals D hD
 
 /-- non-vacuity: a viewport scale below a translate — the point is scaled first, then moved -/
 example (cfg : Cfg ℚ) :
